@@ -43,6 +43,9 @@ type task struct {
 	pred    func() bool
 	lastRun int
 	panicV  string
+	spun    bool // force-preempted because it ran SpinLimit yield points without blocking
+	spinCount int
+	last3     [3]string // last yield labels (diagnostics)
 }
 
 // Policy of the scheduler.
@@ -90,7 +93,18 @@ type Sim struct {
 	curInc  int
 
 	PanicTasks []string
+	QuietInc   map[int]bool // incarnations that are shutting down: their task panics are not reported
 	Stop       bool // set by harness: stop scheduling, Run returns "stopped"
+
+	// SpinLimit: a task that passes this many yield points without parking is
+	// preempted (deterministically, no tape draw); when only such spinners are
+	// runnable the scheduler lets a millisecond of simulated time pass, as a busy
+	// loop burns wall-clock time in a real process.
+	SpinLimit  int
+	sinceSched  int
+	Spins       int
+	spinBackoff time.Duration
+	lastT       *task
 }
 
 type onceState struct {
@@ -111,7 +125,9 @@ func New(tape *Tape) *Sim {
 		Faults:     map[string]int{},
 		Probes:     map[string]int{},
 		onceTab:    map[*sync.Once]*onceState{},
+		QuietInc:   map[int]bool{},
 		TraceLimit: 4000,
+		SpinLimit:  400,
 		digest:     14695981039346656037,
 		schedHash:  14695981039346656037,
 	}
@@ -192,8 +208,10 @@ func (s *Sim) SpawnIn(inc int, name string, f func()) {
 	s.mu.Unlock()
 	go func() {
 		<-t.wake
+		// a read or write of an unmapped page becomes a panic of this task, not a crash of the simulator
+		debug.SetPanicOnFault(true)
 		defer func() {
-			if e := recover(); e != nil {
+			if e := recover(); e != nil && !s.QuietInc[t.inc] {
 				t.panicV = fmt.Sprint(e)
 				s.PanicTasks = append(s.PanicTasks, fmt.Sprintf("task %d(%s): %v\n%s", t.id, t.name, e, trimStack(string(debug.Stack()))))
 			}
@@ -239,6 +257,18 @@ func (s *Sim) Kill(inc int) {
 	}
 }
 
+// KillOthers marks every live task of the incarnation except the caller dead.
+func (s *Sim) KillOthers(inc int) {
+	s.mu.Lock()
+	for _, t := range s.tasks {
+		if t.inc == inc && t != s.cur && t.state != stDone && t.state != stDead {
+			t.state = stDead
+		}
+	}
+	s.mu.Unlock()
+	s.Event("kill others inc=%d", inc)
+}
+
 // IncDead reports whether the incarnation has been killed (no live tasks and killed flag).
 func (s *Sim) isDead(t *task) bool { return t.state == stDead }
 
@@ -252,6 +282,9 @@ func (s *Sim) signalParked() {
 // park hands the baton back; returns when the scheduler gives it again.
 func (s *Sim) park(state int, on any, pred func() bool) {
 	t := s.cur
+	if state != stRunnable {
+		t.spinCount = 0
+	}
 	s.mu.Lock()
 	t.state = state
 	t.waitOn = on
@@ -282,6 +315,8 @@ func Yield(label string) {
 		select {}
 	}
 	s.Yields++
+	t0 := s.cur
+	t0.last3[0], t0.last3[1], t0.last3[2] = t0.last3[1], t0.last3[2], label
 	if s.OnYield != nil {
 		s.OnYield(label)
 	}
@@ -295,6 +330,15 @@ func Yield(label string) {
 		return
 	}
 	v := s.Tape.preempt()
+	// yields since the task last blocked: a task that never blocks is a busy loop
+	s.cur.spinCount++
+	if s.cur.spinCount > s.SpinLimit {
+		s.cur.spinCount = 0
+		s.Spins++
+		s.cur.spun = true
+		s.park(stRunnable, spinMark, nil)
+		return
+	}
 	if v == 0 {
 		return
 	}
@@ -307,6 +351,7 @@ func Yield(label string) {
 type preemptMark int
 
 var yieldMark = preemptMark(1)
+var spinMark = preemptMark(1)
 
 // YieldNow always hands the baton back (harness use): the scheduler chooses.
 func (s *Sim) YieldNow() {
@@ -333,6 +378,7 @@ func Sleep(d time.Duration) {
 		time.Sleep(d)
 		return
 	}
+	S.cur.spinCount = 0
 	tok := BeforeBlock()
 	time.Sleep(d)
 	AfterBlock(tok)
@@ -639,6 +685,31 @@ func (s *Sim) Run() string {
 			return ResStuck
 		}
 		sort.Slice(runnable, func(i, j int) bool { return runnable[i].id < runnable[j].id })
+		allSpun := true
+		for _, r := range runnable {
+			if !r.spun {
+				allSpun = false
+			}
+		}
+		if allSpun {
+			for _, r := range runnable {
+				r.spun = false
+			}
+			if blockedReal > 0 {
+				// every goroutine is parked: the fake clock advances.  Consecutive
+				// spin rounds back off (1ms, 2ms, ... 1s) so that long waits stay cheap.
+				if s.spinBackoff < time.Millisecond {
+					s.spinBackoff = time.Millisecond
+				}
+				time.Sleep(s.spinBackoff)
+				if s.spinBackoff < time.Second {
+					s.spinBackoff *= 2
+				}
+				continue
+			}
+		} else {
+			s.spinBackoff = 0
+		}
 		var t *task
 		if s.policy == PolicyFair {
 			t = runnable[0]
@@ -662,6 +733,8 @@ func (s *Sim) Run() string {
 		s.mu.Unlock()
 		s.cur = t
 		last = t
+		s.lastT = t
+		s.sinceSched = 0
 		t.wake <- struct{}{}
 	}
 	return ResSteps
@@ -709,7 +782,7 @@ func (s *Sim) TaskDump() string {
 		if t.state == stDone {
 			continue
 		}
-		fmt.Fprintf(&b, "%d(%s,inc%d):%s ", t.id, t.name, t.inc, stName[t.state])
+		fmt.Fprintf(&b, "%d(%s,inc%d):%s@%s>%s>%s ", t.id, t.name, t.inc, stName[t.state], t.last3[0], t.last3[1], t.last3[2])
 	}
 	return b.String()
 }
@@ -734,6 +807,15 @@ func (s *Sim) CurTask() int {
 }
 
 func (s *Sim) CurInc() int { return s.incOfCaller() }
+
+// LastTask describes the task that held the baton last (diagnostics, scheduler context).
+func (s *Sim) LastTask() string {
+	if s.lastT == nil {
+		return "-"
+	}
+	t := s.lastT
+	return fmt.Sprintf("%d(%s,inc%d)@%s>%s>%s", t.id, t.name, t.inc, t.last3[0], t.last3[1], t.last3[2])
+}
 
 func hashStr(x string) uint64 {
 	h := fnv.New64a()
